@@ -64,6 +64,13 @@ func checkC05(c *Ctx) {
 			c.c08Backend(b)
 		}
 	}, "R05.2", "backends.Write:stores", []string{"R08.3"}, "write-effect")
+	// "while its result stays fresh": the janitor removes an entry only when it has an expiry and that expiry lies before the
+	// boundary — never-expiring results (UnlimitedTTL backends) survive every cycle (C11 R11.2)
+	c.borrow("C11", func() {
+		for _, b := range backends {
+			c.c11DeleteExpired(b)
+		}
+	}, func(o *coreObl) (string, bool) { return "R05.2", o.Rule == "R11.2" })
 	// R05.7: "a burst costs exactly one successful build" needs the election of C01: one owner per key, the builder only under
 	// ownership, the key lock held until the (possibly background) build is over
 	c.borrow("C01", func() {
